@@ -390,6 +390,8 @@ class Evaluator:
             return VInt(-as_int(v))
         if isinstance(node.op, ast.UAdd):
             return v
+        if isinstance(node.op, ast.Invert) and type(v).__name__ == 'VMatMask':
+            return self.mat_invert(v)
         raise Unsupported('unary op')
 
     def ev_BoolOp(self, node, st):
@@ -623,6 +625,17 @@ class Evaluator:
 
     def ev_Subscript(self, node, st):
         base = self.ev(node.value, st)
+        if type(base).__name__ == 'VMat' and isinstance(node.slice, ast.Tuple):
+            return self.mat_subscript_ast(base, node.slice, st, node)
+        if isinstance(base, VFunc) and base.kind == 'module' and base.name == 'np.r_' and isinstance(node.slice, ast.Tuple):
+            # np.r_[a, b, ...]: concatenation of 1-D arrays and scalars
+            cur = None
+            for e in node.slice.elts:
+                v = self.ev(e, st)
+                piece = self.as_array(v, st) if isinstance(v, VList) else self.list_literal([v], st)
+                cur = piece if cur is None else self.list_concat(cur, piece, st)
+            self.used('np.r_ (concatenation)')
+            return VList(cur.ref, nd=True)
         if isinstance(node.slice, ast.Slice):
             sl = VSlice(*[self.ev(x, st) if x is not None else VNone() for x in (node.slice.lower, node.slice.upper, node.slice.step)])
         else:
@@ -663,6 +676,8 @@ class Evaluator:
         if isinstance(base, VRange) and not isinstance(sl, VSlice):
             i = as_int(sl)
             return VInt(base.start + i * base.step)
+        if type(base).__name__ == 'VMat' and isinstance(sl, VList):
+            return self.mat_gather_rows(base, sl, st, node)
         if isinstance(base, VRag):
             k_ = as_int(sl)
             self.oblige(st, 'index', 'key-or-index-exists', z3.And(k_ >= 0, k_ < st.heap.rags[base.ref].count), node, raises='KeyError')
@@ -677,6 +692,11 @@ class Evaluator:
         raise Unsupported('subscript of %r (line %s)' % (base, getattr(node, 'lineno', '?')))
 
     def subscript_hook(self, base, sl, st, node):
+        if isinstance(base, VList) and base.nd and base.width is None and isinstance(sl, VTuple) and len(sl.items) == 2 and isinstance(sl.items[0], VSlice) \
+                and all(isinstance(x, VNone) for x in (sl.items[0].start, sl.items[0].stop, sl.items[0].step)) \
+                and (isinstance(sl.items[1], VNone) or (isinstance(sl.items[1], VFunc) and sl.items[1].name == 'np.newaxis')):
+            from .mat import VCol
+            return VCol(base)
         # P[:, c] on an array whose rows are fixed-width tuples of numbers (e.g. channel positions): column c as a 1-D array
         if isinstance(base, VList) and isinstance(sl, VTuple) and len(sl.items) == 2 and isinstance(sl.items[0], VSlice) \
                 and all(isinstance(x, VNone) for x in (sl.items[0].start, sl.items[0].stop, sl.items[0].step)) and isinstance(sl.items[1], VInt):
@@ -742,6 +762,8 @@ class Evaluator:
             return VInt(1 if base.width is None else 2)
         if isinstance(base, VList) and base.nd and attr == 'dtype':
             return VElem(z3.Const('some_dtype', Elem))
+        if type(base).__name__ == 'VMat':
+            return self.mat_getattr(base, attr, st, node)
         if isinstance(base, VRag) and attr in ('append', 'items'):
             return VFunc('ragmethod', attr, self_val=base)
         if isinstance(base, VBlocks) and attr == 'append':
